@@ -395,10 +395,95 @@ def hist_stream_c11(ctx):
     ctx.oblige("search:each call of a history closes the channel it was given, also when every call gets it through the same variable", bad == 0)
 
 
+C11_MILESTONE_THEOREMS = ["Acv.C11Milestones.source_readable", "Acv.C11Milestones.closes_once_after_loop",
+                          "Acv.C11Milestones.fields_as_documented", "Acv.C11Milestones.strict_reading_agrees",
+                          "Acv.C11Milestones.stages_paired", "Acv.C11Milestones.milestones_length", "Acv.C11Milestones.milestones_ops",
+                          "Acv.C11Milestones.milestones_bracketed", "Acv.C11Milestones.milestones_of_stages",
+                          "Acv.C11Milestones.durations_nonneg", "Acv.C11Milestones.pipeline_milestones"]
+
+# the seven stages in the order of the constants of pkg/events/events.go: stage k = events 2k (Start), 2k+1 (Done)
+MS_STAGES = ["ProfileParsing", "InputDataParsing", "InputDataNormalization", "RegoGeneration", "RegoCompilation",
+             "OpaValidation", "BuildReport"]
+
+
+def ms_expected(events):
+    """None unless the list is well bracketed ([Start s, Done s] pairs of known stages, optionally one open Start at the end);
+    else the milestones the documentation promises: [operation, time of the Start, Done time - Start time] per pair"""
+    want = []
+    k = 0
+    while k < len(events):
+        ty, t0 = events[k]
+        if ty % 2 != 0 or not (0 <= ty < 14):
+            return None
+        if k + 1 == len(events):
+            break
+        ty1, t1 = events[k + 1]
+        if ty1 != ty + 1:
+            return None
+        want.append([MS_STAGES[ty // 2], t0, t1 - t0])
+        k += 2
+    return want
+
+
+def cmp_ms(case, i, m):
+    """the library's own consumer of the events (pkg/milestones) on an arbitrary list of events"""
+    if "error" in m:
+        return ("~model-error", "model driver rejected the case: " + m["error"])
+    evs = case["events"]
+    shown = str(evs) if len(evs) <= 16 else f"{evs[:16]}... ({len(evs)} events)"
+    where = f"{case['kind']}/{case['times']} events {shown}"
+    want = ms_expected(evs)
+    got = i.get("milestones")
+    if want is not None:
+        # a well-bracketed list: what C11 guarantees the pipeline sends. The property, stated on the REAL output:
+        if i.get("outcome") == "timeout":
+            return ("ms-not-closed", f"{where}: GenerateMilestonesFromEvents did not return after the event channel was closed: {i.get('err')}")
+        if i.get("closes") != 1 or i.get("outcome") != "ok":
+            how = {0: "was NOT closed", 2: "was closed twice (panic: close of closed channel)"}.get(i.get("closes"), f"closes={i.get('closes')}")
+            return ("ms-close-count", f"{where}: the milestone channel {how} after the event channel had been closed (outcome {i.get('outcome')} {str(i.get('err'))[:120]})")
+        if got is None:
+            return ("~ms-no-output", f"{where}: harness reported no milestones: {str(i)[:200]}")
+        ops_got, ops_want = [x[0] for x in got], [x[0] for x in want]
+        if ops_got != ops_want:
+            if sorted(ops_got) == sorted(ops_want):
+                kind = "misordered"
+            elif len(ops_got) < len(ops_want):
+                kind = "missing"
+            elif len(ops_got) > len(ops_want):
+                kind = "extra"
+            else:
+                kind = "wrong-operation"
+            return ("ms-" + kind, f"{where}: completed stages {ops_want} but milestones {ops_got}")
+        for k, (g, w) in enumerate(zip(got, want)):
+            if g[1] != w[1]:
+                return ("ms-wrong-start", f"{where}: milestone {k} {w[0]}: Start {g[1]} but its Start event is at {w[1]}")
+            if g[2] != w[2]:
+                return ("ms-wrong-duration", f"{where}: milestone {k} {w[0]}: Duration {g[2]} but Done - Start = {w[2]}")
+    if i.get("outcome") in ("timeout", "badcase", "crash"):
+        return ("~ms-impl-" + i["outcome"], f"{where}: {str(i.get('err'))[:200]}")
+    if i.get("outcome") != "ok" or i.get("closes") != 1:
+        return ("~ms-close", f"{where}: outcome {i.get('outcome')} closes {i.get('closes')} {str(i.get('err'))[:120]}")
+    if got != m.get("milestones"):
+        d = next((k for k, (a, b) in enumerate(zip(got, m["milestones"])) if a != b), min(len(got), len(m["milestones"])))
+        return ("~ms-model", f"{where}: real milestones and model differ at {d}: {got[d:d+2]} vs {m['milestones'][d:d+2]} (lengths {len(got)}/{len(m['milestones'])})")
+    return None
+
+
 def check_C11(ctx):
-    return skeleton_check(ctx, "C11", "Acv.Props.C11", C11_THEOREMS, extra=hist_stream_c11,
-        rule="every profile/data variant built to fail at one stage (YAML, structure, unknown prefix, Rego syntax, denied builtin, undecodable data, JSON-LD rejection, evaluation conflict) x every public entry point, run with a real event channel and consumer goroutine; non-trivial = some stage fails",
-        assumptions=["every event send and close goes through dispatchEvent/CloseEventChan in the translated functions (checked by the correspondence, not by the theorems)"])
+    def milestone_consumer(ctx):
+        broken = prove(ctx, "Acv.Props.C11Milestones", C11_MILESTONE_THEOREMS)
+        lines, impl, model = corr(ctx, "ms", 300 if ctx.quick() else 5000, cmp_ms)
+        nb = sum(1 for l in lines if ms_expected(json.loads(l)["events"]) is not None)
+        ctx.coverage["streams"]["ms"]["well_bracketed"] = nb
+        ctx.oblige("correspondence:milestone model vs the real GenerateMilestonesFromEvents on arbitrary event lists",
+                   not any(s.startswith("ms:") for s, _, _ in ctx.breaks) and not any(v[0].startswith("ms:") for v in ctx.violations))
+        hist_stream_c11(ctx)
+        if broken:
+            raise broken[0]
+    return skeleton_check(ctx, "C11", "Acv.Props.C11", C11_THEOREMS, extra=milestone_consumer,
+        rule="every profile/data variant built to fail at one stage (YAML, structure, unknown prefix, Rego syntax, denied builtin, undecodable data, JSON-LD rejection, evaluation conflict) x every public entry point, run with a real event channel and consumer goroutine; non-trivial = some stage fails. Stream ms: event lists fed to the real pkg/milestones.GenerateMilestonesFromEvents and to the Lean model driven by the regenerated switch table - every prefix of the three stage orders (what the pipeline sends for every outcome), well-bracketed pair sequences in any stage order, permutations/duplications/omissions of them, unknown (also negative) event types, Done before Start, repeated Start, long lists (up to 2000 events), times increasing / with ties / all equal / decreasing / random / decades away, unbuffered, 1-slot and roomy milestone channels; on well-bracketed lists the milestones must be exactly the completed stages with Start = time of the Start event and Duration = Done - Start and the milestone channel must be closed exactly once",
+        assumptions=["every event send and close goes through dispatchEvent/CloseEventChan in the translated functions (checked by the correspondence, not by the theorems)",
+                     "milestones: event times closer to each other than Go's maximal Duration (292 years); the Start of a Done that never had a Start is Go's zero time (model: none)"])
 
 
 C04_THEOREMS = ["Acv.C04.data_failure_is_never_a_report", "Acv.C04.report_only_after_all_stages",
@@ -1509,7 +1594,7 @@ def check_C15(ctx):
 # ------------------------------------------------------------------ replay
 
 REPLAY_CMP = {"parse": cmp_parse, "c01": cmp_c01, "c02": cmp_c02, "c03": cmp_c03, "c13": cmp_c13, "c14": cmp_c14, "c15": cmp_c15, "c16": cmp_c16, "c08": cmp_c08,
-              "c07": cmp_c07, "fuzz": cmp_fuzz, "hist": cmp_hist}
+              "c07": cmp_c07, "fuzz": cmp_fuzz, "hist": cmp_hist, "ms": cmp_ms}
 
 
 def replay(ctx, path):
